@@ -59,6 +59,7 @@ type Obl struct {
 	CmdIdx  int  // obligation may use cmds[:CmdIdx]
 	Src     string
 	Cover   bool // cover obligation: must NOT be unsat
+	Rel     *Obl // relative cover: vacuity counts only if this earlier cover is itself satisfiable
 	Status  string
 	Solver  string
 	TimeS   float64
@@ -186,6 +187,17 @@ func (vc *VC) oblige(kind, name string, pos token.Position, src string, guard, c
 
 func (vc *VC) cover(name string, pos token.Position, guard Term, props []string) {
 	vc.obls = append(vc.obls, &Obl{Name: vc.uniq(name), Kind: "cover", Func: vc.fn.String(), Pos: pos, Props: props, Goal: guard, CmdIdx: len(vc.cmds), Cover: true})
+}
+
+// coverRel adds a cover obligation and returns it (for relative covers around contract calls).
+func (vc *VC) coverRel(name string, pos token.Position, guard Term, rel *Obl) *Obl {
+	var props []string
+	if vc.prop != "" {
+		props = []string{vc.prop}
+	}
+	o := &Obl{Name: vc.uniq(name), Kind: "cover", Func: vc.fn.String(), Pos: pos, Props: props, Goal: guard, CmdIdx: len(vc.cmds), Cover: true, Rel: rel}
+	vc.obls = append(vc.obls, o)
+	return o
 }
 
 func (vc *VC) uniq(name string) string {
